@@ -11,6 +11,7 @@ import (
 	"math"
 	"runtime"
 	"strconv"
+	"sync"
 	"time"
 
 	"github.com/named-data/ndnd/fw/core"
@@ -66,6 +67,7 @@ type NDNLPLinkService struct {
 	headerOverhead int
 
 	// Receive
+	recvMutex           sync.Mutex // frames come from the transport and, for a new UDP face, from the listener
 	partialMessageStore map[uint64][][]byte
 
 	// Send
@@ -296,6 +298,9 @@ func sendPacket(l *NDNLPLinkService, out dispatch.OutPkt) {
 }
 
 func (l *NDNLPLinkService) handleIncomingFrame(frame []byte) {
+	l.recvMutex.Lock()
+	defer l.recvMutex.Unlock()
+
 	// We have to copy so receive transport buffer can be reused
 	wire := make([]byte, len(frame))
 	copy(wire, frame)
